@@ -237,14 +237,15 @@ PROPS["C09"] = {
 PROPS["C10"] = {
     "level": "exploration",
     "technique": "differential PBT (rapid): at quiescent points of generated histories the running server is compared with a second server started on a copy of its disk (recovery) and with itself across a clean restart, on a dump of everything observable; white-box cache-vs-disk coherence check; codec round trips",
-    "level_text": "Histories with failing requests, bulk creations of up to 120 objects (more live objects than the 100-slot inode cache; directories of >100 entries over several blocks, names of 97-112 bytes), writes in the direct/indirect/double-indirect ranges. Every 10th step and at the end, with no request in flight, shrinkers finished and the journal flushed: (1) a dump of everything a client can observe (listing order and cookies of READDIR and READDIRPLUS, handles, all attributes including times, LOOKUP/GETATTR replies, link targets, every byte of every file) is taken from the running server and from a fresh server started on a copy-on-write clone of the disk at that moment (so recovery runs on whatever the journal holds); the dumps must be identical; a separate action dumps, restarts cleanly, and dumps again; (2) every cached inode must re-encode to the 128 bytes on the logical disk, every cached name table must equal a scan of its directory, the name-cache hint must be slot-aligned, and the allocators must equal the bitmaps. Side properties: decode-then-encode is the identity on arbitrary inode images, directory entries and handles.",
+    "level_text": "Histories with failing requests, bulk creations of up to 120 objects (more live objects than the 100-slot inode cache; directories of >100 entries over several blocks, names of 97-112 bytes), writes in the direct/indirect/double-indirect ranges. Every 10th step and at the end, with no request in flight, shrinkers finished and the journal flushed: (1) a dump of everything a client can observe (listing order and cookies of READDIR and READDIRPLUS, handles, all attributes including times, LOOKUP/GETATTR replies, link targets, every byte of every file) is taken from the running server and from a fresh server started on a copy-on-write clone of the disk at that moment (so recovery runs on whatever the journal holds); the dumps must be identical; a separate action dumps, restarts cleanly, and dumps again; (2) every cached inode must re-encode to the 128 bytes on the logical disk, every cached name table must equal a scan of its directory, the name-cache hint must be slot-aligned, and the allocators must equal the bitmaps. Side properties: decode-then-encode is the identity on arbitrary inode images, directory entries and handles. A concurrent unit runs the programs of the C03 check (name and data operations of 2-4 clients on shared names and files, requests through handles of files that are removed meanwhile, in a third of the cases with a working set larger than the inode cache, in some on a full disk); when all clients have returned and background freeing has finished, the same three comparisons are made - whatever order the requests took effect in.",
     "level_note": "Unstable data not yet committed is flushed before the comparison (the property speaks of moments when all stable data is flushed; loss of uncommitted unstable data is C07's subject).",
     "rule": ("unit = one quiescent comparison (image recovery or clean restart) or codec triple. Non-trivial: the point is preceded (since the last one) by an abort of a transaction that had modified state, or more objects are live than the inode cache holds, or it is a clean-restart comparison (caches rebuilt from disk). distinct = FNV hash of (history so far, index)."),
     "assumptions": COMMON_ASSUMPTIONS,
-    "required_classes": ["quiescent_points_compared_with_recovery_from_image", "clean_restarts_compared", "points_after_an_abort_of_a_modified_transaction", "points_with_more_objects_than_the_inode_cache"],
+    "required_classes": ["quiescent_points_compared_with_recovery_from_image", "clean_restarts_compared", "points_after_an_abort_of_a_modified_transaction", "points_with_more_objects_than_the_inode_cache", "quiescent_points_after_concurrent_programs"],
     "units": [
         {"test": "^TestC10Equiv$", "quick": {"checks": 50, "shards": 8, "steps": 40}, "thorough": {"checks": 800, "shards": 12, "steps": 80}},
         {"test": "^TestC10Full$", "quick": {"checks": 40, "shards": 4, "steps": 40}, "thorough": {"checks": 600, "shards": 8, "steps": 60}},
+        {"test": "^TestC10Conc$", "quick": {"checks": 60, "shards": 4}, "thorough": {"checks": 1500, "shards": 8}},
         {"test": "^TestC10Codec$", "quick": {"checks": 3000}, "thorough": {"checks": 200000, "shards": 4}},
     ],
 }
